@@ -24,7 +24,7 @@ VALUES = ("type-directed values of all 170 types: scalars {0,1,max,sign bit,non-
 
 PROPS = {
     "C01": {
-        "theorems": [],
+        "theorems": ["FinProto.Obl.C01_mirror", "FinProto.Obl.C01_keys", "FinProto.Obl.C01_widths", "FinProto.Obl.C01_no_unrecognised_statement", "FinProto.Obl.C01_repo", "FinProto.Obl.C01_same", "FinProto.roundtrip", "FinProto.enc_canon_val", "FinProto.enc_canon_val_frame"],
         "aspects": {**ENC_ALL, **DEC_ALL},
         "rule": VALUES + "Each canonical value is encoded by the real library and by the model, the produced bytes (+ random trailing "
                 "bytes) are decoded by both. distinct = (type, outcome class, length class, buffer history); non-trivial = the message has at "
@@ -32,7 +32,8 @@ PROPS = {
         "assumptions": ["canonical domain as stated in the property; absent and empty lists are identified"],
     },
     "C02": {
-        "theorems": [],
+        "theorems": ["FinProto.Obl.C02_types", "FinProto.Obl.C02_tables", "FinProto.Obl.C02_repo", "FinProto.Obl.C02_decode", "FinProto.enc_eq_render",
+                     "FinProto.encode_eq_render", "FinProto.render_table_equiv", "FinProto.padOrCut_eq_writeFixed"],
         "aspects": {"penc": [0, 1], "pdec": [0, 1, 2]},
         "oracle": True,   # a disagreement with the pinned-schema renderer IS a failing input (the oracle is the spec)
         "rule": VALUES + "Library bytes vs Spec.render of the committed Pinned schema (canonical AND non-canonical values); library decode vs "
@@ -68,20 +69,20 @@ PROPS = {
                 "buffer; a 400-message sequence into one partially consumed buffer == concatenation.",
     },
     "C07": {
-        "theorems": [],
+        "theorems": ["FinProto.Obl.C07_mirror", "FinProto.Obl.C07_prefix", "FinProto.Obl.C07_repo", "FinProto.Obl.C07_stream", "FinProto.obl_decTy", "FinProto.dec_extend", "FinProto.stream", "FinProto.dec_stream"],
         "aspects": {**DEC_ALL},
         "rule": VALUES + "each encoding followed by {0, 1..15, 16..80} arbitrary bytes: consumed == message length, rest untouched; a stream "
                 "of mixed messages recovered by successive decodes from one buffer.",
     },
     "C08": {
-        "theorems": [],
+        "theorems": ["FinProto.Obl.C08_mirror", "FinProto.Obl.C08_framesTop", "FinProto.Obl.C08_repo", "FinProto.Obl.C08_frames", "FinProto.Obl.C08_frames_iff", "FinProto.dec_enc", "FinProto.dec_enc_frame", "FinProto.writeFixed_trim"],
         "aspects": {**DEC_ALL, **ENC_ALL},
         "rule": "valid encodings of all types with pad/NUL/space/0xFF/random bytes sprinkled over them (accepted byte strings the encoder "
                 "would not produce); every accepted one is re-encoded and compared with the consumed bytes (frames: length/checksum "
                 "fields may only be replaced by their correct values).",
     },
     "C09": {
-        "theorems": ["FinProto.Obl.C09_widths", "FinProto.Obl.C09_elems", "FinProto.Obl.C09_no_unrecognised_statement", "FinProto.Obl.C09_no_panic", "FinProto.dec_no_panic", "FinProto.dec_ok_or_err"],
+        "theorems": ["FinProto.Obl.C09_widths", "FinProto.Obl.C09_elems", "FinProto.Obl.C09_no_unrecognised_statement", "FinProto.Obl.C09_no_panic", "FinProto.dec_no_panic", "FinProto.dec_ok_or_err", "FinProto.Obl.C09_linear_time", "FinProto.Obl.C09_cost_projection", "FinProto.decTyC_steps_linear", "FinProto.repIters_le"],
         "aspects": {**DEC_CLASS},
         "rule": "malformed stream into all 170 decoders: bit flips, random windows, pad sprinkles, truncations (every cut in the first 24 and last "
                 "12 bytes), 0xFF windows, random bytes, maximal length/count prefixes followed by 0/1/3/40 bytes; outcome class compared with "
@@ -89,7 +90,8 @@ PROPS = {
         "assumptions": ["a Go runtime abort that is not a panic (out-of-memory kill) is C10's subject"],
     },
     "C10": {
-        "theorems": [],
+        "theorems": ["FinProto.Obl.C10_widths", "FinProto.Obl.C10_elems", "FinProto.Obl.C10_projection", "FinProto.Obl.C10_request_local", "FinProto.Obl.C10_total_linear",
+                     "FinProto.decTyC_fst", "FinProto.decTyC_maxReq", "FinProto.decTyC_alloc_linear"],
         "aspects": {**DEC_CLASS},
         "rule": "hostile short inputs (every length/count prefix of a valid encoding set to 0xFFFFFFFF/0x7FFFFFFF/0x04000000/0xFFF0/0x8000, "
                 "followed by 0/1/3/40 bytes) x buffers {exact, 1 MiB stale spare capacity, consumed prefix}; runtime.MemStats.TotalAlloc "
@@ -97,7 +99,7 @@ PROPS = {
         "assumptions": ["the model counts requested bytes; the Go allocator's rounding and GC are outside it"],
     },
     "C11": {
-        "theorems": [],
+        "theorems": ["FinProto.Obl.C11_mirror", "FinProto.Obl.C11_repo", "FinProto.truncated_rejected", "FinProto.dec_truncated_not_ok", "FinProto.dec_no_panic"],
         "aspects": {**DEC_CLASS},
         "rule": "every cut position 0..len-1 of valid encodings of all types and all keys (sampled for encodings > 600 bytes in the quick tier), "
                 "in exact buffers and in reused receive buffers whose spare capacity holds stale bytes.",
